@@ -30,7 +30,7 @@ def run(ctx):
     from .common import AssocModel as _AM
     ctx.shared(_c02.atomic, ctx, _AM(ctx.repo))    # a rejected relate leaves no half link behind for the consistency check to trip over
     ctx.shared(_c02.delete_rule, ctx)          # delete unlinks every partner, so that no counted partner is a deleted instance
-    ctx.assume('Link.navigate returns the partner set of the instance (C02-LINKOPS)')
+    ctx.shared(_c02.linkops, ctx)              # the partner sets the check counts: connect / disconnect add and remove exactly the pair
     return ('Finite truth tables obtained by abstract execution of the source of check_link_integrity, '
             'check_association_integrity, check_subtype_integrity, MetaModel.is_consistent, the null predicate of '
             'check_uniqueness_constraint and the result-summing part of both consistency_check.main functions; '
@@ -254,7 +254,16 @@ def _main_rule(ctx, r, modname):
 
     atoms = [('opts.rel_ids', lambda e, s, tr: bool(s['rels'])), ('opts.kinds', lambda e, s, tr: bool(s['kinds'])),
              ('len(opts.rel_ids) == 0', lambda e, s, tr: not s['rels']), ('len(opts.kinds) == 0', lambda e, s, tr: not s['kinds'])]
-    effects = [('%s = 0' % var, init), ('%s += _V' % var, add)]
+    def overwrite(e, s, tr):
+        # <errors> = <check result>: what was counted before is lost
+        saved = s.get('sum', [])
+        s['sum'] = []
+        if add(e, s, tr):
+            return True
+        s['sum'] = saved
+        return False
+
+    effects = [('%s = 0' % var, init), ('%s += _V' % var, add), ('%s = _V' % var, overwrite)]
     iters = [('opts.rel_ids', lambda e, s, tr: list(s['rels'])), ('opts.kinds', lambda e, s, tr: list(s['kinds']))]
     it = absint.Interp(fn, atoms, effects, iters=iters)
     it.skip = lambda st: isinstance(st, ast.Expr)
